@@ -131,6 +131,10 @@ def oracles(rec):
                 fail('C16', 'a payload was dropped by a call that took none')
         if cur[0] == 'gone' and alive and op not in ('into',) and prev[0] != 'gone':
             fail('C16', 'machine is gone but its context was not dropped')
+        # ---- C19: a dispatch that returns (Ok or Err) leaves the machine in a declared state and usable
+        if op == 'handle' and prev[0] == 'dyn' and prev[1] in states and (o['res'] == 'ok' or o['res'].startswith('errdyn:')):
+            if cur[0] != 'dyn' or cur[1] not in states:
+                fail('C19', f'handle returned {o["res"]} but the machine is now {cur[1]}')
         # ---- transitions
         if op in ('handle', 'tcall') and prev[0] in ('dyn', 'typed') and o['res'] != 'nosuch' and prev[1] in states:
             dyn = op == 'handle'
@@ -279,10 +283,6 @@ def oracles(rec):
                     fail('C05', 'a callback or AfterSuccess stage ran although the call returned an error')
             if res.startswith('panic') and dyn and cur[1] != 'poisoned' and cur[1] != src:
                 fail('C19', f'after a panicking dispatch the machine reports {cur[1]} (was {src})')
-        # ---- C19: a dispatch that returns (Ok or Err) leaves the machine in a declared state and usable
-        if op == 'handle' and prev[0] == 'dyn' and prev[1] in states and (o['res'] == 'ok' or o['res'].startswith('errdyn:')):
-            if cur[0] != 'dyn' or cur[1] not in states:
-                fail('C19', f'handle returned {o["res"]} but the machine is now {cur[1]}')
         # ---- C19: once poisoned, nothing is reported but unavailability
         if prev[0] == 'dyn' and prev[1] == 'poisoned':
             if op == 'state' and not o['res'].startswith('panic:invalid'):
